@@ -33,7 +33,7 @@ func (c18) Assumptions() []string {
 }
 func (c18) Floor(tier string) int {
 	if tier == "thorough" {
-		return 40000
+		return 5000
 	}
 	return 3000
 }
